@@ -21,7 +21,7 @@ import subprocess
 import time
 
 CACHE = os.path.join(os.path.dirname(os.path.dirname(os.path.abspath(__file__))), ".cache")
-TARGET = os.path.join(CACHE, "kani-target")
+TARGET = os.environ.get("VERIF_KANI_TARGET") or os.path.join(CACHE, "kani-target")
 ENV = dict(os.environ, CARGO_NET_OFFLINE="true", CARGO_TARGET_DIR=TARGET)
 
 
